@@ -59,7 +59,19 @@ WellFormedDialect(ds) ==
   /\ \A i \in 1..Len(ds) : DefValid(ds[i])
   /\ Cardinality({ds[i].id : i \in 1..Len(ds)}) = Len(ds)
 
+\* A field whose Go type is a defined type without a mavenum tag (type Callsign string): the property does not say whether
+\* such a struct is malformed. The library may refuse it; if it accepts it, "not at first use" still binds: the codec it
+\* hands out must encode the field like its underlying type (probes [d, vals, v2, out, panic] recorded at first use).
+HasDefinedTypes(ds) == \E i \in 1..Len(ds) : \E j \in 1..Len(ds[i].fields) : ds[i].fields[j].defined
+ProbesOf(r) == IF "probes" \in DOMAIN r THEN r.probes ELSE <<>>
 Check_DINIT(r) ==
+  IF HasDefinedTypes(r.defs)
+  THEN Failed_(<< <<"no_panic", ~r.panic>>,
+                  <<"accepted_struct_works_at_first_use",
+                       r.init_ok => \A i \in 1..Len(ProbesOf(r)) :
+                          LET p == ProbesOf(r)[i]
+                          IN ~p.panic /\ p.out = Encode(FromGo(r.defs[p.d]), p.vals, p.v2)>> >>)
+  ELSE
   Failed_(<< <<"no_panic", ~r.panic>>,
              <<"malformed_dialect_rejected_at_initialization", ~WellFormedDialect(r.defs) => ~r.init_ok>>,
              <<"well_formed_dialect_accepted", WellFormedDialect(r.defs) => r.init_ok>> >>)
